@@ -809,6 +809,36 @@ pub fn suite_assumptions(ctx: &Ctx, thorough: bool) {
         if !matches!(c, '-' | '_' | '.') && lower.chars().any(|x| matches!(x, '-' | '_' | '.')) {
             ctx.violate("A.lower_no_dash", "to_lowercase never produces - _ . from another char", inp(), lower.clone(), "no dash".into());
         }
+        // x_table_lookup (C15): what the key type of the name table, unicase, takes for equal -- EVERY char against every letter of the
+        // seven names, through the real `==` (probe built by `UniCase::new`, key by `UniCase::ascii`, as PACKAGE_TYPES.get does) and
+        // through the real Hash impl (the case folding phf hashes probes with): an ASCII char folds to its lower-case form, a
+        // non-ASCII char never folds into name letters only (Kelvin sign, long s, dotted / dotless i, ligatures, full-width forms)
+        {
+            use std::hash::{Hash, Hasher};
+            struct Rec(Vec<u8>);
+            impl Hasher for Rec { fn finish(&self) -> u64 { 0 } fn write(&mut self, b: &[u8]) { self.0.extend_from_slice(b) } }
+            const LETTERS: &str = "aceggilmnoprtuvy";
+            let cs = c.to_string();
+            let mut h = Rec(Vec::new());
+            unicase::UniCase::unicode(cs.as_str()).hash(&mut h);
+            let folded = String::from_utf8_lossy(&h.0).into_owned();
+            if c.is_ascii() {
+                if folded != c.to_ascii_lowercase().to_string() {
+                    ctx.violate("A.unicase_fold", "an ASCII char folds to its ASCII lower-case form", inp(), folded.clone(), c.to_ascii_lowercase().to_string());
+                }
+            } else if !folded.is_empty() && folded.chars().all(|x| LETTERS.contains(x)) {
+                ctx.violate("A.unicase_fold", "a non-ASCII char never folds into letters of the package-type names only", inp(), folded.clone(), "some other character".into());
+            }
+            for l in LETTERS.chars() {
+                let ls = l.to_string();
+                let want = c.is_ascii() && c.to_ascii_lowercase() == l;
+                let probe = unicase::UniCase::new(cs.as_str());
+                let key = unicase::UniCase::ascii(ls.as_str());
+                if (key == probe) != want || (probe == key) != want {
+                    ctx.violate("A.unicase_eq", "a one-char probe equals a one-letter key exactly when it is that letter in either ASCII case", json!({"c": format!("U+{:04X}", c as u32), "letter": ls}), format!("{}", key == probe), format!("{want}"));
+                }
+            }
+        }
         // percent-encoding: per char homomorphism of the real encoder (assumed for strings longer than one char)
         ctx.nontrivial();
     }
